@@ -92,6 +92,8 @@ class C05System(BuilderSystem):
             ["set_distance_mode", ["relative"]], ["tool_on", ["clockwise", 50]], ["coolant_on", ["flood"]],
             ["set_feed_rate", [60]], ["set_hotend_temperature", [50]], ["move", [], {"x": 1, "E": 1.5, "S": 30}],
             ["tool_change", ["manual", 2]], ["power_on", ["dynamic", 10]],
+            # modes under which other rules may apply to the same words
+            ["set_feed_mode", ["1/time"]], ["set_feed_mode", ["units/rev"]], ["set_length_units", ["in"]], ["set_extrusion_mode", ["relative"]],
         ] + ([
             # bounds tightened on a live builder: values that were legal (and may be the tracked ones) now fail
             ["set_bounds", ["feed-rate", 55, 58]], ["set_bounds", ["tool-power", 35, 40]], ["set_bounds", ["axes", [0, 0, -1], [1.5, 1.5, 1]]],
@@ -104,6 +106,8 @@ class C05System(BuilderSystem):
             for kw in ({"x": 99, "F": 50}, {"z": -7}, {"x": 1, "F": big}, {"x": 1, "S": big}, {"y": 1, "F": 50, "S": big},
                        {"x": NAN, "F": 50}, {"y": INF, "F": 50}, {"x": 1, "F": NAN}, {"x": 1, "F": 50, "E": NAN},
                        {"x": 1, "S": -1}, {"x": 1, "F": -1},
+                       # zero-valued words (legal by default; if a mode or a bound refuses them, the refusal must be clean)
+                       {"x": 1, "F": 0}, {"y": 1, "S": 0}, {"x": 1, "F": 0.0, "S": 0, "E": 0},
                        # out of range for one quantity but inside the range of the other one
                        {"x": 1, "F": 50, "S": 80}, {"y": 1, "S": 80}, {"x": 1, "F": 5}, {"x": 1, "F": 5, "S": 30}):
                 ops.append([kind, [], kw])
